@@ -1,2 +1,150 @@
 import ZarrsModel.Model.FillMeta
+import ZarrsModel.Lemmas.NumTok
+import ZarrsModel.Lemmas.Json
+import ZarrsModel.Lemmas.Float
 /- helper lemmas for C14/C13 -/
+namespace Zarrs.FillMeta
+open Zarrs.Json Zarrs.Float Zarrs.NumTok
+
+theorem length_natLE (n v : Nat) : (natLE n v).length = n := by
+  induction n generalizing v with
+  | zero => rfl
+  | succ n ih => simp [natLE, ih]
+
+theorem natLE_byte (n v : Nat) : ∀ b ∈ natLE n v, b < 256 := by
+  induction n generalizing v with
+  | zero => simp [natLE]
+  | succ n ih =>
+    intro b hb
+    simp only [natLE, List.mem_cons] at hb
+    rcases hb with rfl | hb
+    · exact Nat.mod_lt _ (by decide)
+    · exact ih _ b hb
+
+theorem leNat_natLE (n v : Nat) : leNat (natLE n v) = v % 256 ^ n := by
+  induction n generalizing v with
+  | zero => simp [natLE, leNat, Nat.mod_one]
+  | succ n ih =>
+    simp only [natLE, leNat, ih]
+    rw [Nat.pow_succ, Nat.mul_comm (256 ^ n) 256, Nat.mod_mul]
+
+theorem natLE_leNat (bs : List Nat) (h : ∀ b ∈ bs, b < 256) : natLE bs.length (leNat bs) = bs := by
+  induction bs with
+  | nil => rfl
+  | cons b bs ih =>
+    have hb := h b (by simp)
+    have := ih (fun x hx => h x (by simp [hx]))
+    simp only [List.length_cons, natLE, leNat]
+    rw [Nat.add_mul_mod_self_left, Nat.mod_eq_of_lt hb, Nat.add_mul_div_left _ _ (by decide : 0 < 256),
+      Nat.div_eq_of_lt hb, Nat.zero_add, this]
+
+theorem leNat_lt (bs : List Nat) (h : ∀ b ∈ bs, b < 256) : leNat bs < 256 ^ bs.length := by
+  induction bs with
+  | nil => simp [leNat]
+  | cons b bs ih =>
+    have hb := h b (by simp)
+    have := ih (fun x hx => h x (by simp [hx]))
+    simp only [List.length_cons, leNat, Nat.pow_succ]
+    omega
+
+theorem hexVal_hexDigit : ∀ d, d < 16 → hexVal (hexDigit d).toNat = some d := by decide
+
+theorem unhexPairs_hex (bs : List Nat) (h : ∀ b ∈ bs, b < 256) :
+    unhexPairs (bs.flatMap (fun b => [(hexDigit (b / 16)).toNat, (hexDigit (b % 16)).toNat])) = some bs := by
+  induction bs with
+  | nil => rfl
+  | cons b bs ih =>
+    have hb := h b (by simp)
+    have := ih (fun x hx => h x (by simp [hx]))
+    simp only [List.flatMap_cons, List.cons_append, List.nil_append, unhexPairs, this,
+      hexVal_hexDigit (b / 16) (by omega), hexVal_hexDigit (b % 16) (by omega)]
+    congr 2; omega
+
+theorem unhexStr_hexStr (bs : List Nat) (h : ∀ b ∈ bs, b < 256) : unhexStr (hexStr bs) = some bs := by
+  simp only [hexStr, List.cons_append, List.nil_append, unhexStr]
+  exact unhexPairs_hex bs h
+
+theorem hexStr_ne (bs : List Nat) : hexStr bs ≠ sInfinity ∧ hexStr bs ≠ sNegInfinity ∧ hexStr bs ≠ sNaN := by
+  refine ⟨?_, ?_, ?_⟩ <;> intro h <;>
+    · have := congrArg List.head? h
+      revert this
+      simp only [hexStr, List.cons_append, List.head?_cons]
+      decide
+
+/-! ### non-finite floats -/
+
+theorem fmt_facts (f : Fmt) (hf : f = f16 ∨ f = bf16 ∨ f = f32 ∨ f = f64) :
+    256 ^ (f.bits / 8) = 2 ^ f.bits ∧ 2 ^ f.bits = 2 * f.signBit ∧ f.inf < f.signBit ∧ f.qnan < f.signBit
+      ∧ f.inf < f.qnan := by
+  rcases hf with rfl | rfl | rfl | rfl <;> decide
+
+theorem names_ne : (sNegInfinity == sInfinity) = false ∧ (sNaN == sInfinity) = false ∧ (sNaN == sNegInfinity) = false := by
+  decide
+
+theorem bits_split (S b : Nat) (hS : 0 < S) (hb : b < 2 * S) :
+    (b / S % 2 == 1) = true → b = S + b % S := by
+  intro h
+  have h1 : b / S < 2 := (Nat.div_lt_iff_lt_mul hS).mpr hb
+  have h2 : b / S = 1 := by
+    have : b / S % 2 = 1 := beq_iff_eq.mp h
+    generalize b / S = q at h1 this
+    omega
+  have := Nat.div_add_mod b S
+  rw [h2] at this; omega
+
+theorem bits_split' (S b : Nat) (hS : 0 < S) (hb : b < 2 * S) :
+    (b / S % 2 == 1) = false → b = b % S := by
+  intro h
+  have h1 : b / S < 2 := (Nat.div_lt_iff_lt_mul hS).mpr hb
+  have h2 : b / S = 0 := by
+    have : ¬ (b / S % 2 = 1) := beq_eq_false_iff_ne.mp h
+    generalize b / S = q at h1 this
+    omega
+  have := Nat.div_add_mod b S
+  rw [h2] at this; omega
+
+theorem metaToFloat_hex (nc : NumCodec) (how : Narrow) (f : Fmt) (hf : f = f16 ∨ f = bf16 ∨ f = f32 ∨ f = f64)
+    (b : Nat) (hb : b < 2 ^ f.bits) :
+    metaToFloat nc how f (.str (hexStr (natLE (f.bits / 8) b).reverse)) = some b := by
+  obtain ⟨h256, -, -, -, -⟩ := fmt_facts f hf
+  obtain ⟨h1, h2, h3⟩ := hexStr_ne (natLE (f.bits / 8) b).reverse
+  have hun := unhexStr_hexStr (natLE (f.bits / 8) b).reverse
+    (fun x hx => natLE_byte _ _ x (List.mem_reverse.mp hx))
+  simp only [metaToFloat, beq_iff_eq, h1, h2, h3, if_false, hun, List.length_reverse, length_natLE,
+    if_true, List.reverse_reverse, leNat_natLE, h256, Nat.mod_eq_of_lt hb]
+
+theorem float_nonfinite (nc : NumCodec) (how : Narrow) (f : Fmt)
+    (hf : f = f16 ∨ f = bf16 ∨ f = f32 ∨ f = f64) (b : Nat) (hb : b < 2 ^ f.bits) (hnf : f.isFinite b = false) :
+    metaToFloat nc how f (floatToMeta nc f b) = some b ∧ ∃ s, floatToMeta nc f b = .str s := by
+  obtain ⟨h256, h2S, hinf, hq, hiq⟩ := fmt_facts f hf
+  have hS : 0 < f.signBit := by omega
+  rw [h2S] at hb
+  unfold floatToMeta
+  split
+  · rename_i hi
+    have hm : b % f.signBit = f.inf := by simpa [Fmt.isInf, Fmt.mag] using hi
+    split
+    · rename_i hn
+      have := bits_split _ b hS hb (by simpa [Fmt.neg] using hn)
+      refine ⟨?_, _, rfl⟩
+      simp only [metaToFloat, names_ne.1, Bool.false_eq_true, if_false, BEq.rfl, if_true]
+      rw [this, hm]
+    · rename_i hn
+      have := bits_split' _ b hS hb (by simpa [Fmt.neg] using hn)
+      refine ⟨?_, _, rfl⟩
+      simp only [metaToFloat, BEq.rfl, if_true]
+      rw [this, hm]
+  · split
+    · rename_i hq'
+      have : b = f.qnan := by simpa using hq'
+      refine ⟨?_, _, rfl⟩
+      simp only [metaToFloat, names_ne.2.1, names_ne.2.2, Bool.false_eq_true, if_false, BEq.rfl, if_true, this]
+    · split
+      · exact ⟨metaToFloat_hex nc how f hf b (by rw [h2S]; exact hb), _, rfl⟩
+      · rename_i h1 _ h3
+        exfalso
+        simp only [Fmt.isFinite, Fmt.isInf, Fmt.isNan, decide_eq_false_iff_not, beq_iff_eq, decide_eq_true_eq] at hnf h1 h3
+        omega
+
+
+end Zarrs.FillMeta
